@@ -31,6 +31,7 @@ THEOREMS = {
     "C08": [("XV.Tz.string_tokens_are_source_slices", "XonshVerif.Properties.C08"), ("XV.Tz.srcText_is_slice_of_source", "XonshVerif.Properties.C08"), ("XV.Tz.tokenizeLines_strings", "XonshVerif.Proofs.StringTiling"),
             ("XV.Tz.pseudo_token_is_source_slice", "XonshVerif.Proofs.Tiling"), ("XV.Tz.handleEndProgs_adv", _PT), ("XV.Tz.nextPseudo_adv", _PT), ("XV.Tz.scanLine_no_loopFuel", _PT)],
     "C11": [("XV.Helpers.error_wellformed", _HELP)],
+    "C04": [("XV.Act.nullable_sound", "XonshVerif.Properties.C04"), ("XV.Act.required_fields_never_none", "XonshVerif.Properties.C04")],
     "C12": [("XV.Lines.getLines_file_eq_string", "XonshVerif.Properties.C12"), ("XV.Lines.scanFile_spec", "XonshVerif.Properties.C12")],
     "C14": [("XV.Tz.tokens_after_neutral_prefix", "XonshVerif.Properties.C14"), ("XV.Tz.tokenize_append", "XonshVerif.Properties.C14"), ("XV.Tz.neutral_prefix_lines", "XonshVerif.Properties.C14"),
             ("XV.Tz.tokenizeLines_sh", "XonshVerif.Proofs.TokCompose"), ("XV.Tz.tokenizeLines_append", "XonshVerif.Proofs.TokCompose")],
@@ -166,7 +167,7 @@ CERTS = {
     "C03": [("XVC.ir_complete", _B)] + _RX_PROGRESS + [("XVC.gen_pseudo_progress", _R), ("XVC.shipped_tokenizer_total", _R)],
     "C06": [("XVC.bracket_method_table", _B)],
     "C18": [("XVC.ir_complete", _B), ("XVC.cycle_cert", _CO), ("XVC.memo_mask_correct", _CO), ("XVC.memoised_rules_expected", _CO), ("XVC.shipped_no_multi_edge_on_cycle", _CO)],
-    "C04": [("XVC.ir_complete", _B), ("XVC.no_nullable_required_field", _AC), ("XVC.action_fields_nonempty", _AC)],
+    "C04": [("XVC.ir_complete", _B), ("XVC.no_nullable_required_field", _AC), ("XVC.action_fields_nonempty", _AC), ("XVC.shipped_actions_all_ok", _AC), ("XVC.shipped_required_fields_never_none", _AC)],
     "C13": [("XVC.state_inventory_expected", _AC)],
     "C16": [("XVC.regenerated_ir_equals_shipped", "XonshCerts.Regen"), ("XVC.regenerated_ir_nonempty", "XonshCerts.Regen"), ("XVC.regenerated_xonsh_alternatives_inert", "XonshCerts.Regen")],
     "C07": [("XVC.ir_complete", _B)],
